@@ -2,8 +2,9 @@
 """Creates a scratch worktree for a property and prints the sub-agent prompt (property text only)."""
 import json, os, subprocess, sys
 pid = sys.argv[1]
-wt = "/tmp/wt_%s" % pid
-out = "/tmp/seed_%s" % pid
+suffix = sys.argv[2] if len(sys.argv) > 2 else ""      # second-round seeds: e.g. "b"
+wt = "/tmp/wt_%s%s" % (pid, suffix)
+out = "/tmp/seed_%s%s" % (pid, suffix)
 p = [json.loads(l) for l in open("/verif/properties.jsonl") if json.loads(l)["id"] == pid][0]
 if not os.path.exists(wt):
     subprocess.run(["git", "-C", "/repo", "worktree", "add", "--detach", wt, "HEAD"], check=True, stdout=subprocess.DEVNULL, stderr=subprocess.DEVNULL)
